@@ -246,7 +246,7 @@ func strLit(s string) *Term {
 	return t
 }
 
-func strLen(s *Term) *Term { return App("sx.len", SInt, s) }
+func strLen(s *Term) *Term   { return App("sx.len", SInt, s) }
 func strAt(s, i *Term) *Term { return App("sx.at", SInt, s, i) }
 func strConcat(a, b *Term) *Term {
 	if a == strLit("") {
